@@ -261,7 +261,8 @@ fn run_one(dir: &str, framing: &str, variant: &str, len: u64) -> String {
         });
         peak = p; allocs = a;
         // a head shorter than the limit that then ends with the stream is simply an incomplete request (no answer)
-        ok = sres.is_ok() && (status == "431" || (len < 5900 && status == "NONE"));
+        // (19 bytes precede the value; exactly at the limit the buffer is full without a complete head: 431)
+        ok = sres.is_ok() && status == if 19 + len >= 6000 { "431" } else { "NONE" };
         if !ok { eprintln!("memory S bighead {len}: server={sres:?} status={status}"); }
     } else {
         // S: the whole server path
@@ -317,7 +318,8 @@ pub fn gen(ctx: &Ctx) {
         }
     }
     {
-        let case = format!("S cl bighead {}", ls(if ctx.thorough { 1 << 28 } else { 1 << 24 }));
+        // lengths around the limit and between the limit and the next power of two (seed C20-h rounded the limit up to 8192)
+        let case = format!("S cl bighead 5980,5981,6100,7000,{}", ls(if ctx.thorough { 1 << 28 } else { 1 << 24 }));
         let r = run(&case);
         out.emit(&case, &r, "S/bighead", true);
     }
